@@ -5,6 +5,8 @@ and evaluated on the *implementation's* responses.
 -/
 import HdwModel.Driver.Util
 import HdwModel.Spec.Rlp
+import HdwModel.Spec.Bip39
+import HdwModel.Model.Wordlist
 
 namespace Hdw.Driver.Judge
 open Hdw Hdw.Driver
@@ -27,6 +29,53 @@ def judgeMsgHash (m : Bytes) (resp : String) : Verdict :=
   let pre : Bytes := [0x19] ++ "Ethereum Signed Message:\n".toUTF8.toList ++
     (toString m.length).toUTF8.toList ++ m
   expect (resp == "ok " ++ hx (Prim.keccak256 pre)) "digest differs from keccak256(0x19 ‖ prefix ‖ len ‖ m)"
+
+/-! ### C01 / C12 -/
+
+/-- executable form of `Spec.Bip39.Valid`: the unique candidate entropy is the top ENT bits -/
+def bip39Entropy? (words : List Str) : Option Bytes :=
+  let n := words.length
+  if n == 12 || n == 15 || n == 18 || n == 21 || n == 24 then
+    match words.mapM (fun w => Wordlist.table.idxOf? w) with
+    | none => none
+    | some idxs =>
+      let v := idxs.foldl (fun a i => a * 2048 + i) 0
+      let ent := beFixed (n * 4 / 3) (v / 2 ^ (n / 3))
+      if Spec.Bip39.indices Prim.sha256 ent == idxs then some ent else none
+  else none
+
+def judgeMnParse (text : Str) (resp : String) : Verdict :=
+  let words := (String.ofList text).splitToList (fun c => isWhitespace c) |>.filter (· ≠ "")
+  match bip39Entropy? (words.map String.toList) with
+  | some _ =>
+    let printed := hx (" ".intercalate words).toUTF8.toList
+    expect (resp == s!"ok {printed} {words.length} {printed}")
+      "valid BIP-39 sentence must be accepted, print as the words joined by single spaces, and report its word count"
+  | none => expect (resp == "err") "not a valid BIP-39 sentence (count, unknown word or checksum): must be an ordinary error"
+
+/-- generation: exactly one request of 4L/3 bytes; the phrase encodes exactly the injected bytes -/
+def judgeMnRandom (n : Nat) (inject : Option Bytes) (resp : String) : Verdict :=
+  let supported := n == 12 || n == 15 || n == 18 || n == 21 || n == 24
+  if !supported then expect (resp == "err") "unsupported length must be refused"
+  else
+    let need := n * 4 / 3
+    match inject with
+    | none => expect (resp == "err") "entropy failure must be an error"
+    | some b =>
+      if b.length < need then expect (resp == "err") "entropy failure must be an error"
+      else
+        match resp.splitOn " " with
+        | ["ok", ph, len, log] =>
+          match unhex ph with
+          | some phb =>
+            let words := ((String.fromUTF8? ⟨phb.toArray⟩).getD "").splitOn " "
+            match bip39Entropy? (words.map String.toList) with
+            | some ent =>
+              expect (ent == b.take need && len == toString n && log == toString need && words.length == n)
+                "phrase must be a valid L-word sentence whose entropy is exactly the bytes of one request of 4L/3 bytes"
+            | none => .fails "generated phrase is not a valid BIP-39 sentence"
+          | none => .fails "unparsable"
+        | _ => .fails "generation failed although the entropy source succeeded"
 
 /-! ### C14 -/
 
